@@ -316,25 +316,8 @@ def _is_subclass(types, g: str, want: Set[str]) -> bool:
 
 
 def _namespace_walk(ctx: Ctx, rid: str) -> None:
-    """The R12.4 obligations, re-evaluated under this property's rule id."""
+    """The R12.4 / R12.5 obligations, re-evaluated under this property's rule id."""
     from . import c12
+    from ..report import SubCtx
 
-    class _Proxy:
-        def __init__(self, ctx):
-            self._c = ctx
-
-        def __getattr__(self, k):
-            return getattr(self._c, k)
-
-        def rule(self, r, text, minimum=1):
-            if r == "R12.4" or r == "R12.5":
-                return
-            self._c.rules.setdefault("_", "")
-
-        def ob(self, r, key, ok, **kw):
-            if r in ("R12.4", "R12.5"):
-                return self._c.ob(rid, key, ok, **kw)
-            return ok
-
-    c12.run(_Proxy(ctx))  # type: ignore[arg-type]
-    ctx.rules.pop("_", None)
+    c12.run(SubCtx(ctx, {"R12.4": (rid, ""), "R12.5": (rid, "")}))  # type: ignore[arg-type]
